@@ -546,7 +546,7 @@ class ProgGen:
                 m = {"by": "traps", "traps": tr, "weights": [pick(r, [0.0, 1.0, 0.5]) for _ in tr]}
                 if not any(m["weights"]):
                     m["weights"][0] = 1.0
-            if self.mappable:
+            if self.mappable or getattr(self, "maps_by_traps", False):
                 tr = self.reg["traps"]
                 m = {"by": "traps", "traps": tr, "weights": [pick(r, [0.0, 1.0, 0.5]) for _ in tr]}
                 if not any(m["weights"]):
